@@ -17,8 +17,12 @@ class StubStrategy:
         self.log = log
         self.position = None
 
+    probe = None        # set by an oracle: called INSIDE the position-update hook (what a strategy hook would see)
+
     def _on_updated_position(self, order):
         self.log.append(('updated', order))
+        if StubStrategy.probe is not None:
+            StubStrategy.probe(order)
 
 
 class Session:
